@@ -1,5 +1,5 @@
 SPECIFICATION Spec
-CONSTANTS Stems <- StemsDef Roots <- RootsDef Cols <- ColsAll BaseSet <- BasesAll MaxOps = 4 Exts <- ExtsCsv NRows = 7
+CONSTANTS Stems <- StemsA Roots <- RootsDef Cols <- Cols3 BaseSet <- BasesPep MaxOps = 5 Exts <- ExtsBoth NRows = 6
  Mut_NoDot = FALSE Mut_ReadUnfiltered = FALSE Mut_SharedSeen = FALSE Mut_BreakOnSeen = FALSE Mut_KeyWithDecoy = FALSE Mut_TempAppend = FALSE AsIs_BaseNames = FALSE
 INVARIANT TypeOK
 PROPERTY RollObeysRule
